@@ -163,29 +163,35 @@ impl Crypto {
         Ed25519KeyPair::from_seed_unchecked(&key).unwrap()
     }
 
+    /// Decodes a 32 byte key from its text form. The text form drops leading zero bytes, so
+    /// shorter results are padded on the left.
+    fn decode_key(text: &str, err: &'static str) -> Result<[u8; 32], Error> {
+        let bytes = from_base62(text).map_err(|_| Error::InvalidConfig(err))?;
+        if bytes.len() > 32 {
+            return Err(Error::InvalidConfig(err));
+        }
+        let mut key = [0; 32];
+        key[32 - bytes.len()..].copy_from_slice(&bytes);
+        Ok(key)
+    }
+
     fn parse_keypair(privkey: &str, pubkey: &str) -> Result<Ed25519KeyPair, Error> {
-        let privkey = from_base62(privkey).map_err(|_| Error::InvalidConfig("Failed to parse private key"))?;
-        let pubkey = from_base62(pubkey).map_err(|_| Error::InvalidConfig("Failed to parse public key"))?;
+        let privkey = Self::decode_key(privkey, "Failed to parse private key")?;
+        let pubkey = Self::decode_key(pubkey, "Failed to parse public key")?;
         let keypair = Ed25519KeyPair::from_seed_and_public_key(&privkey, &pubkey)
             .map_err(|_| Error::InvalidConfig("Keys rejected by crypto library"))?;
         Ok(keypair)
     }
 
     fn parse_private_key(privkey: &str) -> Result<Ed25519KeyPair, Error> {
-        let privkey = from_base62(privkey).map_err(|_| Error::InvalidConfig("Failed to parse private key"))?;
+        let privkey = Self::decode_key(privkey, "Failed to parse private key")?;
         let keypair = Ed25519KeyPair::from_seed_unchecked(&privkey)
             .map_err(|_| Error::InvalidConfig("Key rejected by crypto library"))?;
         Ok(keypair)
     }
 
     fn parse_public_key(pubkey: &str) -> Result<Ed25519PublicKey, Error> {
-        let pubkey = from_base62(pubkey).map_err(|_| Error::InvalidConfig("Failed to parse public key"))?;
-        if pubkey.len() != ED25519_PUBLIC_KEY_LEN {
-            return Err(Error::InvalidConfig("Failed to parse public key"));
-        }
-        let mut result = [0; ED25519_PUBLIC_KEY_LEN];
-        result.clone_from_slice(&pubkey);
-        Ok(result)
+        Self::decode_key(pubkey, "Failed to parse public key")
     }
 
     pub fn public_key_from_private_key(privkey: &str) -> Result<String, Error> {
